@@ -18,6 +18,7 @@ partial def bOf (d : String) : BRes :=
   else if d.startsWith "ob:" then
     match (d.drop 3).toString with
     | "vT" => .tru | "vF" => .fls | "mT" => .tru | "mF" => .fls | _ => .other
+  else if d.startsWith "tn:" then bOf (d.drop 3).toString    -- typed descendant: user B if any, else the payload's
   else if d.startsWith "d2:" then
     let inner := (d.drop 3).toString
     if inner.startsWith "ob:" then bOf inner
